@@ -847,16 +847,16 @@ def r_filter_order(ctx: RuleCtx, col: Collector):
     resp = m.resolve_method(fl, "_response")
     sens = m.resolve_method(fl, "_sensitivity")
     rs, ss = m.self_name(resp), m.self_name(sens)
-    # normalisation attribute: the one derived from H by a sum in _prepare
-    prep = m.resolve_method(fl, "_prepare")
+    # roles from the response expression: product with self.<H>, division by self.<S>
     hattr = sattr = None
-    for n in ast.walk(prep.node):
-        if isinstance(n, ast.Assign) and isinstance(n.targets[0], ast.Attribute) and isinstance(n.value, ast.Call) and \
-                isinstance(n.value.func, ast.Attribute) and n.value.func.attr == "sum" and \
-                isinstance(n.value.func.value, ast.Attribute):
-            sattr, hattr = n.targets[0].attr, n.value.func.value.attr
-    if not hattr:
-        raise AnalysisError("Filter._prepare: normalisation (row sum of H) not found")
+    for n in ast.walk(resp.node):
+        if isinstance(n, ast.BinOp) and isinstance(n.op, ast.Div) and isinstance(n.right, ast.Attribute) and norm(n.right.value) == rs:
+            sattr = n.right.attr
+        if isinstance(n, ast.BinOp) and isinstance(n.op, (ast.Mult, ast.MatMult)) and isinstance(n.left, ast.Attribute) and \
+                norm(n.left.value) == rs:
+            hattr = n.left.attr
+    if not hattr or not sattr:
+        raise AnalysisError("Filter._response: product with the filter matrix and division by the normalisation not found")
 
     def shape(f, sn):
         """('div-of-prod' | 'prod-of-div' | None)"""
